@@ -416,6 +416,12 @@ def run(ctx):
     res = bfs(run_h, depth, ctx)
     nf, flabels, fviols, fsamples = f_part(ctx)
     res["violations"] = res["violations"] + fviols
+    from vf.checks import c04s
+    sres = c04s.run_s(ctx)
+    res["violations"] = res["violations"] + sres["violations"]
+    res["states"] += sres["coverage"]["executions"]
+    res["transitions"] += sres["coverage"]["transitions"]
+    res["schedules"] = sres["coverage"]
     cov = {
         "states": res["states"], "transitions": res["transitions"],
         "traces_validated_against_impl": res["transitions"],
@@ -424,7 +430,7 @@ def run(ctx):
         "samples": sample(res["samples"], 8),
         "exhaustive": res["capped"] is None, "capped": res["capped"],
         "alphabet": {"slots": list(_CFG.slots), "generators": _CFG.max_gens, "attrs": list(_CFG.attrs)},
-        "fault_runs_during_a_call": nf, "fault_run_outcomes": flabels, "fault_run_samples": fsamples,
+        "schedules": res["schedules"], "fault_runs_during_a_call": nf, "fault_run_outcomes": flabels, "fault_run_samples": fsamples,
         "state_invariants": "pids() and pid_exists(n) for n in {-1,0,A,B,C,tid,absent,2^31-1,2^31,2^64} evaluated in every reached state",
     }
     return {"coverage": cov, "violations": res["violations"],
@@ -435,6 +441,9 @@ def run(ctx):
 def replay(ctx, case):
     global _CFG
     _CFG = Cfg(ctx.seed, ctx.thorough)
+    if case.get("part") == "S":
+        from vf.checks import c04s
+        return c04s.replay_s(ctx, case)
     if "f" in case:
         f = case["f"]
         r = f_run((f["op"], tuple(tuple(x) for x in f["plan"]), f["warm"]))
